@@ -190,6 +190,8 @@ fn extra_templates() -> Vec<(&'static str, T)> {
         ("B$(1)=\"q\"", T::S(Stmt::Let(false, lvi("B$", vec![num(1.0)]), st("q")))),
         ("PRINT B$(1);B$(2)", T::S(p(vec![PItem::E(call("B$", vec![num(1.0)])), PItem::Semi, PItem::E(call("B$", vec![num(2.0)]))]))),
         ("A(1)=\"s\" (ill-typed)", T::S(Stmt::Let(false, lvi("A", vec![num(1.0)]), st("s")))),
+        ("DEF FNB(X)=FNA(X+1)+X", T::S(Stmt::Def("FNB".into(), vec!["X".into()], bin(Add, call("FNA", vec![bin(Add, var("X"), num(1.0))]), var("X"))))),
+        ("IF X THEN GOSUB sub ELSE PRINT \"NO\"", T::S(Stmt::If(var("X"), br(Stmt::Gosub(SUB_LINE)), Some(br(pe(st("NO"))))))),
         ("IF X THEN GOSUB sub", T::S(Stmt::If(var("X"), br(Stmt::Gosub(SUB_LINE)), None))),
         ("IF I=1 THEN FOR J=1 TO 2", T::S(Stmt::If(bin(Eq, var("I"), num(1.0)), br(Stmt::For("J".into(), num(1.0), num(2.0), None)), None))),
     ]
@@ -216,7 +218,7 @@ pub fn data_menu() -> Vec<(&'static str, T)> {
 
 /// User functions: definition, redefinition, dynamic scoping, failing bodies.
 pub fn fn_menu() -> Vec<(&'static str, T)> {
-    pick(&["DEF FNA(X)=X+Y", "DEF FNB(Y)=FNA(Y)", "DEF FNA(X)=X*2", "DEF FNC(X)=X/0", "Y=3", "X=X+1", "PRINT FNA(2)", "PRINT FNB(1)", "PRINT FNC(1)", "PRINT X;Y", "GOTO first"])
+    pick(&["DEF FNA(X)=X+Y", "DEF FNB(Y)=FNA(Y)", "DEF FNA(X)=X*2", "DEF FNC(X)=X/0", "Y=3", "X=X+1", "PRINT FNA(2)", "PRINT FNB(1)", "PRINT FNC(1)", "PRINT X;Y", "GOTO first", "DEF FNB(X)=FNA(X+1)+X"])
 }
 
 /// Arrays: explicit and implicit dimensioning, strides, subscript errors.
@@ -226,7 +228,7 @@ pub fn array_menu() -> Vec<(&'static str, T)> {
 
 /// IF / ELSE lines combined with subroutines and loops.
 pub fn branch_menu() -> Vec<(&'static str, T)> {
-    pick(&["IF X THEN PRINT 1", "IF X THEN PRINT 1 ELSE PRINT 2", "IF X=0 THEN GOSUB sub ELSE PRINT \"NO\"", "IF X THEN X=5", "IF X THEN last", "IF X THEN GOSUB sub", "X=X+1", "PRINT X", "GOTO first", "RETURN", "FOR I=1 TO 2", "NEXT I"])
+    pick(&["IF X THEN PRINT 1", "IF X THEN PRINT 1 ELSE PRINT 2", "IF X=0 THEN GOSUB sub ELSE PRINT \"NO\"", "IF X THEN X=5", "IF X THEN last", "IF X THEN GOSUB sub", "X=X+1", "PRINT X", "GOTO first", "RETURN", "FOR I=1 TO 2", "NEXT I", "IF X THEN GOSUB sub ELSE PRINT \"NO\""])
 }
 
 /// Lays a statement sequence out on lines. `joins` bit i set = statement i+1 shares the line
